@@ -198,6 +198,17 @@ class Ctx:
         v = cal.get_available_units(DT(d.year, d.month, d.day))
         return 0 if v is None else v
 
+    def cap_for(self, rname, d, tn):
+        """capacity the resource offers to THIS task on that day (an IResource may answer per task)"""
+        r = self.res_by_name.get(rname)
+        if r is not None and hasattr(r, 'task_limits') and r.task_limits:
+            return r.cap(d, self.w.id_of.get(tn))
+        return self.cap(rname, d)
+
+    def limited(self, rname, tn):
+        r = self.res_by_name.get(rname)
+        return r is not None and hasattr(r, 'task_limits') and self.w.id_of.get(tn) in r.task_limits
+
     def T(self, n):
         return self.view['tasks'][n]
 
@@ -300,19 +311,16 @@ def check_c03(c):
         want = c.kw(tn).get('resource') if tn in st.spec else '?'
         if rn != want:
             return V('C03', 'wrong-resource', f'row {i}: task {tn} names resource {want!r}, booked on {rn!r}', c)
-        cap = c.cap(rn, d)
+        cap = c.cap_for(rn, d, tn)
         if cap is None or not (cap > 0):
             return V('C03', 'no-capacity-day', f'row {i}: {u} units for {tn} on {d.date()} where {rn!r} offers {cap}', c)
         totals[(rn, d)] = totals.get((rn, d), 0) + u
         per_task[(rn, d, tn)] = per_task.get((rn, d, tn), 0) + u
-    if c.balance:
-        for (rn, d), s in totals.items():
-            if not fle(s, c.cap(rn, d)):
-                return V('C03', 'over-allocated', f'{rn!r} on {d.date()}: {s} booked, capacity {c.cap(rn, d)}', c)
-    else:
-        for (rn, d, tn), s in per_task.items():
-            if not fle(s, c.cap(rn, d)):
-                return V('C03', 'over-allocated', f'{rn!r} on {d.date()} task {tn}: {s} booked, capacity {c.cap(rn, d)}', c)
+        # the amount booked so far may not exceed what the resource offers (to this task) on that day
+        so_far = totals[(rn, d)] if c.balance else per_task[(rn, d, tn)]
+        if not fle(so_far, cap):
+            who = '' if c.balance else f' task {tn}'
+            return V('C03', 'over-allocated', f'{rn!r} on {d.date()}{who}: {so_far} booked, capacity {cap}', c)
     # report views agree with rows
     rep = res.resource_usage
     for (rn, d), s in totals.items():
@@ -339,7 +347,7 @@ def check_c03(c):
             if week != [8, 8, 8, 8, 8, 0, 0] or not isinstance(r, c.w.pj.Resource):
                 return V('C03', 'default-resource', f'default resource {rn!r} offers {week} Mon..Sun', c)
     # exactly-once between scheduler and peer: the peer's own reserve log equals the report rows
-    log = [(a, D(b), c.w.name_of_id.get(t), u) for a, b, t, u in c.out['reserve_log']]
+    log = [(a, D(b), c.w.name_of_id.get(t), u) for a, b, t, u, _ in c.out['reserve_log']]
     if log != [(a, b, t, u) for a, b, t, u in rows]:
         return V('C03', 'peer-log-mismatch', f'peer saw {len(log)} reservations, report has {len(rows)} rows (or order/amount differs)', c)
     return None
@@ -349,6 +357,14 @@ def check_c03(c):
 
 def check_c04(c):
     st = c.st
+    if c.dir == 'fwd':
+        # the simulator saw every reservation arrive at the peer together with the clock reads that preceded it:
+        # "never on a day before the current day" is judged against the latest clock value the scheduler had read
+        for (rn, dd, tid, u, nreads) in c.out['reserve_log']:
+            if nreads > 0 and nreads <= len(c.reads):
+                seen = c.reads[nreads - 1]
+                if D(dd).date() < seen.date():
+                    return V('C04', 'row-before-today', f'{c.w.name_of_id.get(tid)}: work reserved on {D(dd).date()} when the clock already read {seen}', c)
     for n in st.order_listed:
         kw = c.kw(n)
         t = c.T(n)
@@ -445,6 +461,8 @@ def check_c08(c, quarantine=()):
                 continue
             t = c.T(n)
             rn = kw.get('resource')
+            if c.limited(rn, n):
+                continue  # "fully booked" is not defined for a task the resource offers only part of a day
             rows = c.rows_by_task.get(n, [])
             rel = [c.proj]
             if c.r_max is not None:
@@ -513,6 +531,8 @@ def check_c09(c):
             continue
         t = c.T(n)
         rn = kw.get('resource')
+        if c.limited(rn, n):
+            continue
         rows = c.rows_by_task.get(n, [])
         d_end = day(t['end'] - US)
         sl = st.succ_leaves(n)
